@@ -38,8 +38,10 @@ def FS.put (fs : FS) (p c : String) : FS := (p, c) :: fs.filter (·.1 != p)
 
 /-- what `Path(p, mode="fc")` looks at besides regular files -/
 structure Env where
-  noParent : List String := []   -- paths whose parent directory does not exist
-  roParent : List String := []   -- paths whose parent directory is not writeable
+  /-- paths whose parent directory does not exist; "parent" = `realpath(path/..)`, the directory the file would really
+      be created in (for a path whose last component is a symbolic link: the parent of what the link points to) -/
+  noParent : List String := []
+  roParent : List String := []   -- paths whose parent directory (same reading) is not writeable
   /-- paths that exist and are neither regular files nor FIFOs (directories, sockets, devices): `Path(fc)` rejects them.
       FIFO targets are OUTSIDE the model: since fix 5706b13 an existing FIFO passes `Path(fc)`, `check_overwrite`
       (`os.path.isfile`) does not refuse it and `open(fifo, "w")` blocks until a reader appears; a FIFO stores no
